@@ -57,6 +57,10 @@ claim("C12", "static analysis: SSA classification of the three admission checks 
       "Decides: the User-Agent, URI and request-header checks each have a failing outcome that reaches fake404+return and cannot reach parseAgentRequest, with the right polarity and initial flag value; without a check's accepting edge and the configuration-only skip edges (conditions over the same Config field only) the parser is unreachable; no teamserver/agent call precedes the parser; every `Name: value` string whose piece [1] is used is cut with SplitN(…, 2); the address handed to the parser is X-Forwarded-For only under BehindRedir and otherwise net.SplitHostPort(RemoteAddr); Start routes POST to request and registers the decoy as catch-all. Not decided: gin's routing/query handling, header canonicalisation in net/http, that ListenerEdit's stores are seen by concurrent requests.",
       TRUST, "DESIGN.md §3 R11, §4 C12")
 
+claim("C16", "static analysis: dominance of every registry growth by a name-existence test (inline loop, predicate call, or at every caller), order/guard rule in ListenerRemove, AST shape of the owner-scoped cleanup loops, range-mutation rule, exact-comparison rule for name predicates, panic-source rules over the service connection handler",
+      "Decides: every append to t.Listeners / s.Listeners / s.Agents is preceded by an existence test on the name; ListenerRemove deletes the database row first and stops/unregisters only on its success, and does all of stop, unregister and event pruning; ClientClose visits and drops every agent type and listener owned by the closing connection (no early break) and leaves its client loop after shrinking it; existence predicates compare names with ==; bounds/nil obligations and lock pairing in the pkg/service functions reachable from handleConnection. Known finding (printed as KNOWN-FINDING): ExternalC2 listeners started for a service connection are never removed when it closes. Not decided: that a stopped http.Server refuses connections, three-view equality across arbitrary histories.",
+      TRUST, "DESIGN.md §3 R12, §4 C16")
+
 for i in range(1, 21):
     pid = "C%02d" % i
     if pid not in CLAIMS and pid not in NA:
